@@ -3,7 +3,9 @@ package rules
 import (
 	"fmt"
 	"go/ast"
+	"go/token"
 	"go/types"
+	"golang.org/x/tools/go/types/typeutil"
 	"sort"
 	"strings"
 
@@ -143,6 +145,12 @@ func checkC08(c *Ctx) {
 	if !hasViolationRule(r.Obls, "R08.6") {
 		r.OK("R08.6", "backends", "no in-place mutation of published entries, no unprotected storage field")
 	}
+	c.c08RangeVarAddress()
+	// R08.2 for the janitor: an entry is deleted by deleteExpired in the critical section that examined it (C11 R11.2)
+	for _, b := range backends {
+		b := b
+		c.borrowKinds("C11", func() { c.c11DeleteExpired(b) }, "R08.2", b.Name+".deleteExpired:same-section", []string{"R11.2"}, "delete-outside-scan")
+	}
 	// R08.7: an operation on key k touches k's slot only and a batch operation reaches every slot: the slot is chosen by one index
 	// function per backend (R07.1), a hash hit is confirmed by the full key before the entry is used or deleted (R09.3), Delete
 	// reports removal only with evidence (R07.3), ExpireAll/DeleteAll/Len act on every entry of every shard (R07.4)
@@ -162,6 +170,91 @@ func checkC08(c *Ctx) {
 			}
 		}
 	}, func(o *coreObl) (string, bool) { return "R08.7", o.Rule == "R09.3" })
+}
+
+// c08RangeVarAddress: with the module's language version below go1.22 the variables of a range clause are shared by all iterations:
+// handing &v to a callback (or storing it) gives every iteration the same pointer — whoever keeps it sees the entry turn into
+// another one (Walk "reports only entries that were stored").
+func (c *Ctx) c08RangeVarAddress() {
+	r := c.R
+	if c.Pkg.Module != nil && c.Pkg.Module.GoVersion != "" {
+		var major, minor int
+		fmt.Sscanf(c.Pkg.Module.GoVersion, "%d.%d", &major, &minor)
+		if major > 1 || major == 1 && minor >= 22 {
+			r.OK("R08.4", "package:range-variable-address", "module language version "+c.Pkg.Module.GoVersion+": per-iteration loop variables")
+			return
+		}
+	}
+	info := c.Pkg.TypesInfo
+	n, bad := 0, false
+	c.eachFuncDecl(func(fd *ast.FuncDecl, fn *types.Func) {
+		name := strings.TrimPrefix(pw.FuncName(fn), "cache.")
+		ast.Inspect(fd.Body, func(x ast.Node) bool {
+			rs, ok := x.(*ast.RangeStmt)
+			if !ok || rs.Tok != token.DEFINE {
+				return true
+			}
+			n++
+			vars := map[types.Object]bool{}
+			for _, e := range []ast.Expr{rs.Key, rs.Value} {
+				if id, ok := e.(*ast.Ident); ok && id.Name != "_" {
+					if o := info.Defs[id]; o != nil {
+						vars[o] = true
+					}
+				}
+			}
+			ast.Inspect(rs.Body, func(y ast.Node) bool {
+				ue, ok := y.(*ast.UnaryExpr)
+				if !ok || ue.Op != token.AND {
+					return true
+				}
+				id, ok := ast.Unparen(ue.X).(*ast.Ident)
+				if !ok || !vars[info.Uses[id]] {
+					return true
+				}
+				// &v is fine as an atomic operand or a decode target used within the iteration; flagged when it is an argument of a
+				// dynamic call (callback) or is stored
+				escapes := false
+				ast.Inspect(rs.Body, func(z ast.Node) bool {
+					switch w := z.(type) {
+					case *ast.CallExpr:
+						for _, a := range w.Args {
+							if ast.Unparen(a) == ast.Expr(ue) {
+								if _, isDeclared := typeutil.Callee(info, w).(*types.Func); !isDeclared {
+									escapes = true // call of a function value: user callback
+								}
+							}
+						}
+					case *ast.AssignStmt:
+						for _, rhs := range w.Rhs {
+							if ast.Unparen(rhs) == ast.Expr(ue) {
+								escapes = true
+							}
+						}
+					case *ast.CompositeLit:
+						for _, el := range w.Elts {
+							if kv, ok := el.(*ast.KeyValueExpr); ok {
+								el = kv.Value
+							}
+							if ast.Unparen(el) == ast.Expr(ue) {
+								escapes = true
+							}
+						}
+					}
+					return true
+				})
+				if escapes {
+					bad = true
+					r.Bad("R08.4", name, "range-variable-address", c.Pos(ue.Pos()), "the address of a range variable is handed to a callback or stored: all iterations share that variable (language version < go1.22), the receiver sees one entry turn into the next", nil)
+				}
+				return true
+			})
+			return true
+		})
+	})
+	if !bad {
+		r.OK("R08.4", "package:range-variable-address", fmt.Sprintf("%d range loops, no address of a range variable escapes", n))
+	}
 }
 
 func hasViolationRule(obls []*coreObl, rule string) bool {
